@@ -81,17 +81,18 @@ FS_VALUES = [0.5, 1.0, 2.0, 10.0, 125.0, 250.0, 1000.0, 44100.0, 3.7, 1.0 / 3.0,
 def data_for(m):
     r = np.random.RandomState(m.get('dseed', 0))
     n = m['n']
-    x = r.randn(2, n)
+    nch = m.get('nch', 2)       # number of channels: 1 (a single-channel shortcut must report the same grid), 2, 4
+    x = r.randn(nch, n)
     if m.get('k0') is not None:
         # on-bin sinusoid at bin k0 of an N-point transform (N = m['N'])
         t = np.arange(n)
         ph = 2 * np.pi * m['k0'] * t / m['N']
         if m.get('complex'):
-            x = np.vstack([np.exp(1j * ph), np.exp(1j * (ph + 0.3))])
+            x = np.vstack([np.exp(1j * (ph + 0.3 * c)) for c in range(nch)])
         else:
-            x = np.vstack([np.cos(ph + 0.2), np.cos(ph + 0.9)])
+            x = np.vstack([np.cos(ph + 0.2 + 0.7 * c) for c in range(nch)])
     elif m.get('complex'):
-        x = x + 1j * r.randn(2, n)
+        x = x + 1j * r.randn(nch, n)
     return x
 
 
@@ -209,11 +210,22 @@ def run_call(m):
         return an.SparseCoherenceAnalyzer(T, ij=[(0, 1)], method={'this_method': 'welch', 'NFFT': N}, lb=lb, ub=ub).frequencies, None
     if name == 'SeedCoherenceAnalyzer.frequencies':
         return an.SeedCoherenceAnalyzer(T, T, method={'NFFT': N}, lb=lb, ub=ub).frequencies, None
-    if name == 'SpectralAnalyzer.psd':
-        f, p = an.SpectralAnalyzer(T, method={'NFFT': N, 'n_overlap': N // 2}).psd
-        return f, p[0]
-    if name == 'SpectralAnalyzer.cpsd':
-        f, p = an.SpectralAnalyzer(T, method={'NFFT': N, 'n_overlap': N // 2}).cpsd
+    if name in ('SpectralAnalyzer.psd', 'SpectralAnalyzer.cpsd'):
+        if m.get('retarget'):
+            # the analyzer is first built on ANOTHER series (3x the rate) and then pointed at T: the frequency
+            # axis must follow the rate of the series it is now analysing (a rate cached in a parameter dict at
+            # construction reports the old series' grid)
+            import nitime.timeseries as ts
+            T0 = ts.TimeSeries(np.asarray(T.data)[..., ::-1] + 1.0, sampling_rate=float(T.sampling_rate) * 3.0, time_unit='s')
+            A = an.SpectralAnalyzer(T0)           # default method dict (filled in by the constructor)
+            A.method.update({'NFFT': N, 'n_overlap': N // 2})
+            A.set_input(T)
+        else:
+            A = an.SpectralAnalyzer(T, method={'NFFT': N, 'n_overlap': N // 2})
+        if name == 'SpectralAnalyzer.psd':
+            f, p = A.psd
+            return f, p[0]
+        f, p = A.cpsd
         return f, np.abs(p[0, 0])
     if name.startswith('SpectralAnalyzer.periodogram/'):
         f, p = an.SpectralAnalyzer(T).periodogram
@@ -354,6 +366,11 @@ def judge(m, res):
 def gen_meta(rng, name, tier):
     kind = CALLS[name][1]
     m = {'call': name, 'dseed': rng.randint(0, 10**6)}
+    if name.split('/')[0] in ('periodogram', 'periodogram_csd', 'multi_taper_psd', 'multi_taper_csd') or \
+            name.startswith('get_spectra/periodogram_csd') or name.startswith('get_spectra/multi_taper_csd'):
+        m['nch'] = rng.choice([1, 1, 2, 4])
+    if name in ('SpectralAnalyzer.psd', 'SpectralAnalyzer.cpsd'):
+        m['retarget'] = rng.random() < 0.5
     big = tier == 'thorough'
     n = rng.randint(4, 64 if big else 28)
     if 'multi_taper' in name:
